@@ -13,7 +13,7 @@ REQUIRED = ["accepted_create_sound", "accepted_create_signed_by_did_key", "accep
             "controller_chain_bounded", "controller_cycle_refused", "deactivated_controller_rejected",
             "controllers_never_deactivated", "controller_versions_are_active", "validator_rules_partial", "validator_rules_embedded_witness", "deactivated_controller_latest_witness", "removed_key_rejected", "removed_key_rejected_self_controlled",
             "validator_rules_sound_complete", "validator_rules_each_necessary",
-            "fact_network_validators", "fact_wiring", "fact_verifier_always_verifies", "fact_thumbprint_rule_for_every_type", "fact_call_sites", "fact_comparisons", "fact_thumbprint_from_key_material", "fact_entry_id_checks", "fact_validator_scope", "fact_max_controller_depth",
+            "fact_network_validators", "fact_wiring", "fact_entry_id_owner_is_document", "fact_verifier_always_verifies", "fact_thumbprint_rule_for_every_type", "fact_call_sites", "fact_comparisons", "fact_thumbprint_from_key_material", "fact_entry_id_checks", "fact_validator_scope", "fact_max_controller_depth",
             "fact_resolve_conditions", "fact_controller_skips", "fact_create_update_split", "fact_callback_steps",
             "fact_store_calls", "fact_update_steps", "fact_ambassador_controller_resolution", "fact_key_resolver"]
 
